@@ -188,8 +188,8 @@ func runC18(c C18Case, ev *vt.Ev) *vt.Failure {
 			}
 			m.apply(op)
 			acked++
-		case <-time.After(10 * time.Second):
-			writeErr.Store(fmt.Sprintf("a %s issued while the scan was streaming a batch was not acknowledged within 10s: the scan does not give up the table lock (or the table is wedged)", op.K))
+		case <-time.After(30 * time.Second):
+			writeErr.Store(fmt.Sprintf("a %s issued while the scan was streaming a batch was not acknowledged within 30s: the scan does not give up the table lock (or the table is wedged)", op.K))
 		}
 	}
 	var stop int32
@@ -252,9 +252,9 @@ func runC18(c C18Case, ev *vt.Ev) *vt.Failure {
 	var got *bt.Result
 	select {
 	case got = <-scanDone:
-	case <-time.After(60 * time.Second):
+	case <-time.After(180 * time.Second):
 		atomic.StoreInt32(&stop, 1)
-		return vt.Failf("C18", "the scan did not finish within 60s (wedged against concurrent writers)")
+		return vt.Failf("C18", "the scan did not finish within 180s (wedged against concurrent writers)")
 	}
 	atomic.StoreInt32(&stop, 1)
 	wg.Wait()
